@@ -519,7 +519,10 @@ func verifShort(name string) string {
 	verifAssume(len(s) >= 1 && len(s) <= 48)
 	verifAssumeAlphabet(s, "AZaz")
 	verifAssume(verifNot(verifOr(strings.Contains(s, "git-lfs"), verifOr(strings.Contains(s, "git-media"), strings.Contains(s, "hawser")))))
-	return s
+	// a tag of its own in front: two contents are never equal, so that the
+	// no-collision assumptions below hold for every model (also natively)
+	verifShortN++
+	return strconv.Itoa(verifShortN) + ":" + s
 }
 
 // VerifC14_Delayed: a checkout with the delay capability, against the real
@@ -536,7 +539,10 @@ func VerifC14_Delayed() {
 	verifDelayCap = true
 	verifShortN = 0
 	verifSchedPolicy(verifChoose("schedule.policy", 3))
-	verifSchedChoose(verifBound("schedule.choices", 0, 3))
+	policy := verifChoose("smudge.policy", 3)
+	if policy == 0 {
+		verifSchedChoose(verifBound("schedule.choices", 0, 3))
+	}
 	local := verifShort("local.content")
 	localOid := verifHashHex([]byte(local))
 	verifFSWrite(config.VerifFS.ObjectPathname(localOid), local, 0444)
@@ -562,7 +568,6 @@ func VerifC14_Delayed() {
 	// smudging switched off: for every path (--skip / GIT_LFS_SKIP_SMUDGE) or
 	// for the paths lfs.fetchexclude names; the one-shot filter then leaves the
 	// pointer as it is, whether or not the object is in local storage
-	policy := verifChoose("smudge.policy", 3)
 	if policy == 1 {
 		filterSmudgeSkip = true
 	} else if policy == 2 {
@@ -582,7 +587,7 @@ func VerifC14_Delayed() {
 	}
 	expect := map[string]exp{}
 	paths := []string{"a.bin", "dir/b c.bin", "c.dat", "d.bin"}
-	if verifChoose("path.order", 2) == 1 {
+	if policy != 0 && verifChoose("path.order", 2) == 1 {
 		paths = []string{"c.dat", "a.bin", "e.dat", "dir/b c.bin"}
 	}
 	npath := 0
@@ -630,7 +635,7 @@ func VerifC14_Delayed() {
 	}
 	n := 1 + verifChoose("requests", verifBound("requests", 2, 2))
 	verifGit.initial = mkRound(n)
-	if verifChoose("second.checkout", 2) == 1 {
+	if policy == 0 && verifChoose("second.checkout", 2) == 1 {
 		// another checkout served by the same filter process
 		verifGit.later = [][]verifReq{mkRound(1 + verifChoose("requests.2", verifBound("requests.2", 1, 2)))}
 	}
